@@ -85,6 +85,17 @@ PROPS = {
         ],
         "assumptions": ["the legacy (2025-06-18) session does not cache list results client-side"],
     },
+    "C19": {
+        "level": "model_checking",
+        "engine": "explore (bounded-exhaustive enumeration)",
+        "technique": "bounded-exhaustive enumeration of messages/values/byte strings through the real codec and framing, with round-trip and no-panic oracles",
+        "claim": "(a) 15 id tokens (incl. +-2^53, +-(2^53+1), int64 min/max, empty/unicode/NUL strings) x methods x a JSON value grammar (16 leaves, nesting depth 2) as params, results and error data: Decode then Encode preserves id type and exact value, method, params, result, error code/message/data, and is a fixpoint; (b) every such payload through SSE writeEvent/scanEvents and through a pair of newline-delimited ioConns; (c) every content kind incl. _meta/annotations and all ordered pairs of nested content inside tool_result round-trip; required members (list arrays, content, text, data, mimeType, messages, contents, completion.values) are present and non-null on the wire end to end; (d) wrongly-cased member names are not accepted; (e) every byte string up to length 5 (thorough 6) over a 12-byte JSON-significant alphabet into DecodeMessage, readBatch, scanEvents, CallToolResult.UnmarshalJSON: no panic",
+        "note": "values outside the grammar/alphabet and longer inputs are outside the bound; a response whose result is JSON null is treated as not well-formed",
+        "parts": [
+            {"pkg": "mcp", "mode": "plain", "test": "TestVerifC19", "shards": 16},
+        ],
+        "assumptions": [],
+    },
     "C20": {
         "level": "model_checking",
         "technique": "explicit-state breadth-first search over operation histories of the real MemoryEventStore with a reference model and private-state invariants checked after every operation",
